@@ -45,7 +45,7 @@ Empty == [
     prevDispErr |-> FALSE, carried |-> {},
     opted |-> {}, bs |-> <<>>, bhe |-> <<>>, synthWanted |-> {}, synthDone |-> {},
     pa |-> NoPA, lastPeret |-> [on |-> FALSE, s |-> 0, act |-> "continue", eff |-> "continue"],
-    idle |-> <<>>, idleOrder |-> <<>>, idlePhase |-> FALSE, idleRanNow |-> {}, cbTargets |-> {}, appliedNow |-> FALSE,
+    idle |-> <<>>, idleOrder |-> <<>>, idlePhase |-> FALSE, idleRanNow |-> {}, cbTargets |-> {}, cbArmed |-> {}, appliedNow |-> FALSE,
     dropSrc |-> <<>>, dropCb |-> <<>>, cbMade |-> <<>>, held |-> <<>>, recovered |-> <<>>,
     opStack |-> <<>>, regErrSeen |-> FALSE, faultSeen |-> FALSE, c16off |-> FALSE,
     peSynth |-> FALSE, cmpSnap |-> FALSE, lastSnap |-> NoSnap,
@@ -212,7 +212,12 @@ UpdOp(sh, ev) ==
                       !.cbTargets = IF ev.ctx # 0 /\ ev.op \in {"remove", "disable", "enable", "update", "insert"}
                                     THEN @ \cup {IF Has(ev, "t") /\ TIdx(ev) \in DOMAIN sh.tokens
                                                  THEN TokSrc(sh, TIdx(ev)) ELSE IF Has(ev, "s") THEN ev.s ELSE 0}
-                                    ELSE @]
+                                    ELSE @,
+                      \* timers whose current arming stems from a (re)registration requested inside a callback
+                      !.cbArmed = IF ev.ctx # 0 /\ ev.op \in {"disable", "enable", "update"} /\ Has(ev, "t") /\ TIdx(ev) \in DOMAIN sh.tokens
+                                  THEN @ \cup {TokSrc(sh, TIdx(ev))}
+                                  ELSE IF ev.ctx = 0 /\ ev.op \in {"disable", "enable", "update", "insert"} /\ Has(ev, "t") /\ TIdx(ev) \in DOMAIN sh.tokens
+                                  THEN @ \ {TokSrc(sh, TIdx(ev))} ELSE @]
   IN CASE ev.op = "remove" /\ Has(ev, "t") /\ LiveTok(sh, TIdx(ev)) ->
             LET s == TokSrc(sh, TIdx(ev)) IN
             Touch([base EXCEPT !.life[s] = "out", !.armed[s] = FALSE,
@@ -251,8 +256,10 @@ UpdOpret(sh, ev) ==
     [] ev.op = "disable" /\ co.live /\ co.ctx # tgt /\ ~sh.en[tgt] /\ PlainFdSource(sh, tgt) ->
          IF ok THEN base ELSE [base EXCEPT !.faultSeen = TRUE, !.cmpSnap = co.ctx = 0]
     [] ev.op = "disable" /\ ok /\ co.live ->
+         \* (a disable() that returned Ok after an earlier self-update in the same callback still has to silence the source:
+         \*  the later request replaces the earlier one; only update-after-disable is left unjudged)
          IF co.ctx = tgt THEN [base EXCEPT !.deferred[tgt] = "disable", !.selfGone[tgt] = TRUE,
-                                           !.misuse = @ \/ sh.deferred[tgt] # "continue"]
+                                           !.misuse = @ \/ sh.deferred[tgt] = "disable"]
          ELSE Touch([base EXCEPT !.en[tgt] = FALSE, !.armed[tgt] = FALSE,
                                  !.misuse = @ \/ ~sh.en[tgt]], tgt)
     [] ev.op = "enable" /\ ok /\ co.live ->
@@ -351,7 +358,7 @@ UpdCb(sh, ev) ==
        [] k \in {"chan", "stream"} -> IF ev.p >= 0
                          THEN [b0 EXCEPT !.queue[s] = IF @ # <<>> /\ Head(@) = ev.p THEN Tail(@) ELSE @]
                          ELSE [b0 EXCEPT !.closedSeen[s] = TRUE]
-       [] k = "timer" -> [b0 EXCEPT !.firedArm[s] = sh.armId[s], !.lastTimerDl = Max2(@, FiredDl(sh, ev))]
+       [] k = "timer" -> [b0 EXCEPT !.firedArm[s] = sh.armId[s], !.lastTimerDl = Max2(@, FiredDl(sh, ev)), !.cbArmed = @ \ {s}]
        [] k = "exec" -> [b0 EXCEPT !.futReady = IF @ # <<>> THEN Tail(@) ELSE @]
        [] OTHER ->
             IF c \in DOMAIN sh.armedOS[s]
@@ -545,6 +552,11 @@ ViolCb(sh, ev) ==
           /\ LET ch == sh.decl[s].children[ev.sub + 1] IN
                 ch.fd = "sock" /\ ((ev.p % 2 = 1 /\ ~WantsR(ch)) \/ (ev.p \div 2 = 1 /\ ~WantsW(ch))),
           {<<"C20", "readiness_of_another_key_delivered_under_this_key">>})
+  \* C08: a disable / enable / update issued from inside a callback has the effect it has outside a dispatch: the timer
+  \* it (re)armed fires for its current deadline, not before and not for another one
+  \cup If(IsTimer(sh, s) /\ s \in sh.cbArmed /\ ~sh.fuzzy[s] /\ ~sh.faultSeen
+          /\ ((~CauseOk(sh, ev) /\ s \notin sh.shifted) \/ (~sh.dlPending[s] /\ ev.p > sh.batchUs)),
+          {<<"C08", "timer_armed_from_a_callback_fired_wrongly">>})
   \cup If(IsTimer(sh, s) /\ ~sh.dlPending[s] /\ ev.p > sh.batchUs, {<<"C05", "fired_early">>, <<"C01", "timer_cb_without_expiry">>})
   \cup If(IsTimer(sh, s) /\ sh.dlPending[s] /\ sh.armed[s] /\ sh.armLo[s] > sh.batchUs, {<<"C05", "fired_early">>, <<"C01", "timer_cb_without_expiry">>})
   \cup If(IsTimer(sh, s) /\ sh.armed[s] /\ sh.firedArm[s] = sh.armId[s], {<<"C05", "arming_fired_twice">>})
@@ -578,6 +590,11 @@ ViolApply(sh, ev) ==
              {<<"C09", "explicit_action_not_applied">>})
           \cup If(sh.lastPeret.act = "continue" /\ ev.act # sh.lastPeret.eff,
                   {<<"C09", "deferred_request_not_applied_to_requester">>})
+          \* C07: a disable the source returned, or requested on itself from its callback (the last request counts), takes
+          \* effect when its event processing finishes
+          \cup If(((sh.lastPeret.act = "disable") \/ (sh.lastPeret.act = "continue" /\ sh.lastPeret.eff = "disable"))
+                  /\ ev.act # "disable" /\ sh.life[s] = "in",
+                  {<<"C07", "disable_of_the_running_source_not_applied">>})
           \* a source that neither returned nor requested Disable is disabled: somebody else's disable reached it
           \cup If(sh.lastPeret.act = "continue" /\ sh.lastPeret.eff # "disable" /\ ev.act = "disable",
                   {<<"C07", "disable_disturbed_other_source">>})
